@@ -437,8 +437,7 @@ func (r *runner) record(op []interface{}, t *txInfo, ret int, hang bool, pan str
 		}
 	}
 	if r.dead = st.Hang || st.Panic != ""; r.dead { // abandoned pool: its blocked goroutines join the baseline
-		time.Sleep(10 * time.Millisecond)
-		baseG = runtime.NumGoroutine()
+		baseG = settledGoroutines()
 	}
 	r.steps = append(r.steps, st)
 }
@@ -954,6 +953,19 @@ func (st *stats) account(c caseJ) {
 		}
 		prev = s.Snap
 	}
+}
+
+// settledGoroutines: the goroutine count after an abandoned (hung) pool, taken as the MINIMUM over ~50 ms: goroutines that are
+// about to exit must not inflate the baseline, or begin() would stop waiting for the ungated reorg goroutines of later cases.
+func settledGoroutines() int {
+	n := runtime.NumGoroutine()
+	for i := 0; i < 25; i++ {
+		time.Sleep(2 * time.Millisecond)
+		if m := runtime.NumGoroutine(); m < n {
+			n = m
+		}
+	}
+	return n
 }
 
 // baseG: goroutines alive outside of any pool call (main, library background, leaked by dead cases).
